@@ -120,6 +120,14 @@ PROPS = {
             {"pkg": "provider/gateway/rest", "run": "^TestVerif_C09_Handshake$", "checks": {Q: 150, T: 2000}, "shards": {Q: 2, T: 16}, "timeout": {Q: 600, T: 3000}, "shrinktime": "30s"},
         ],
     },
+    "C12": {
+        "level": "exploration", "floor": 0.25,
+        "technique": "property-based testing: rapid state machine over a live inventoryService with a scripted cluster client; exact bin-packing oracle for grants; reference model for accounting; differential twin service that is never queried",
+        "level_text": "Generated histories of reserve / release / status / deployment events / node-snapshot changes (1-3 nodes, tight small-integer capacities, commit levels 0.5-3.7, 0-5 external ports) run against the real service: every grant must be packable (exact search over replica placements with the most lenient commit scaling) on the last reported availability and within the free ports; the number of reported reservations equals those outstanding; each reservation is reported with the same amounts every time; a release removes exactly one; and an identical twin service whose status is never queried must take the same reserve decisions.",
+        "level_note": "Trusted: event-based synchronisation (a matching deployment event is followed by an observed Inventory() call before the history continues); the packing oracle only flags over-commitment (first-fit may legitimately refuse a packable set).",
+        "assumptions": ["inventory poll period is one hour so refreshes happen only where the harness triggers them"],
+        "units": [{"pkg": "provider/cluster", "run": "^TestVerif_C12$", "checks": {Q: 300, T: 6000}, "shards": {Q: 2, T: 16}, "steps": 40, "timeout": {Q: 600, T: 3000}, "shrinktime": "30s"}],
+    },
     "C15": {
         "level": "exploration",
         "technique": "property-based testing: rapid state machine vs per-subscriber FIFO model + generated concurrent runs with schedule-independent order oracle",
